@@ -186,6 +186,12 @@ def PySeq.run (s : PySeq) : List Nat → PySeq
   | [] => s
   | M :: Ms => (s.configure M).run Ms
 
+/-- `StripedSequence.copy()` / `__copy__` (`copy.copy`): the derived `Clone` of the Python object — the
+    matrix WITH its look-ahead rows and the shape cached at construction are both copied, so the copy
+    of a sequence that was already configured still shows the sequence rows only. -/
+def PySeq.copy (s : PySeq) : PySeq :=
+  { cols := s.cols, dataRows := s.dataRows, wrap := s.wrap, shapeRows := s.shapeRows }
+
 /-- the view a `memoryview(seq)` gets now -/
 def PySeq.view (s : PySeq) (align : Nat) : View2 := stripedView s.cols s.shapeRows align
 
